@@ -2,9 +2,9 @@ SPECIFICATION FairSpec
 CONSTANTS
   Calls = {1, 2}
   Hashes <- ModelHashes2
-  MaxLanes = 2
-  Kinds = {"line", "mline", "pchan"}
-  LaneCounts = {2}
+  MaxLanes = 1
+  Kinds = {"line"}
+  LaneCounts = {1}
   QSizes = {1}
   HashBits = 3
   Fails = {FALSE}
